@@ -109,3 +109,70 @@ pub fn completion(down: &[u16], descending: bool) -> Vec<Ev> {
     }
     d.into_iter().map(Ev::R).collect()
 }
+
+/// A schedule: events each preceded by a tick gap.
+pub type Sched = Vec<(u32, Ev)>;
+
+/// Every physically consistent schedule of exactly `n` events over press/release of `keys`, each
+/// preceded by a gap from `gaps`. `first` fixes the first (key, gap) choice (sharding; there are
+/// keys.len()*gaps.len() first choices). `f(schedule, common_prefix_len_with_previous)`.
+pub fn for_each_schedule(keys: &[u16], gaps: &[u32], n: usize, first: Option<usize>, f: &mut dyn FnMut(&[(u32, Ev)], usize)) {
+    fn rec(depth: usize, n: usize, first: Option<usize>, gaps: &[u32], keys: &[u16], sched: &mut Sched, down: &mut Vec<bool>, prev: &mut Sched, f: &mut dyn FnMut(&[(u32, Ev)], usize)) {
+        if depth == n {
+            let common = sched.iter().zip(prev.iter()).take_while(|(a, b)| a == b).count();
+            f(sched, common);
+            *prev = sched.clone();
+            return;
+        }
+        let mut choice = 0;
+        for k in 0..keys.len() {
+            let ev = if down[k] { Ev::R(keys[k]) } else { Ev::P(keys[k]) };
+            for g in gaps {
+                if depth == 0 {
+                    if let Some(fst) = first {
+                        if choice != fst {
+                            choice += 1;
+                            continue;
+                        }
+                    }
+                }
+                choice += 1;
+                sched.push((*g, ev));
+                down[k] = !down[k];
+                rec(depth + 1, n, first, gaps, keys, sched, down, prev, f);
+                down[k] = !down[k];
+                sched.pop();
+            }
+        }
+    }
+    let mut sched = vec![];
+    let mut down = vec![false; keys.len()];
+    let mut prev = vec![];
+    rec(0, n, first, gaps, keys, &mut sched, &mut down, &mut prev, f);
+}
+
+pub fn sched_to_hist(sched: &[(u32, Ev)]) -> Vec<Ev> {
+    let mut h = vec![];
+    for (g, e) in sched {
+        if *g > 0 {
+            h.push(Ev::T(*g));
+        }
+        h.push(*e);
+    }
+    h
+}
+
+pub fn hist_to_sched(h: &[Ev]) -> Sched {
+    let mut out = vec![];
+    let mut gap = 0;
+    for e in h {
+        match e {
+            Ev::T(n) => gap += n,
+            e => {
+                out.push((gap, *e));
+                gap = 0;
+            }
+        }
+    }
+    out
+}
